@@ -12,6 +12,7 @@ import (
 	"go/types"
 	"io"
 	"os"
+	"regexp"
 	"sort"
 	"strings"
 	"sync"
@@ -342,6 +343,8 @@ type engine struct {
 	hpkg               *ssa.Package
 	repoPrefix         string
 	models             map[string]*ssa.Function
+	modelRes           []modelRe
+	modelReCache       sync.Map
 	noInit             map[string]string
 	runtimeErrorString types.Type
 	errorStringPtr     types.Type
@@ -363,6 +366,34 @@ type engine struct {
 	allFuncs  map[*ssa.Function]bool
 	allNotes  map[string]bool
 	lazyInits map[string]bool
+}
+
+type modelRe struct {
+	re *regexp.Regexp
+	fn *ssa.Function
+}
+
+// modelFor resolves the harness model of a callee (exact name, then patterns).
+func (e *engine) modelFor(name string) *ssa.Function {
+	if m := e.models[name]; m != nil {
+		return m
+	}
+	if len(e.modelRes) == 0 {
+		return nil
+	}
+	if v, ok := e.modelReCache.Load(name); ok {
+		f, _ := v.(*ssa.Function)
+		return f
+	}
+	var found *ssa.Function
+	for _, m := range e.modelRes {
+		if m.re.MatchString(name) {
+			found = m.fn
+			break
+		}
+	}
+	e.modelReCache.Store(name, found)
+	return found
 }
 
 func (e *engine) isRepoPkg(p *ssa.Package) bool {
